@@ -47,6 +47,8 @@ enum AR { Soa(u32), Other(u32) }
 fn ar_str(a: AR) -> String { match a { AR::Soa(s) => format!("S{}", s), AR::Other(k) => format!("O{}", k) } }
 
 struct Uni {
+    /// added (mod 2^32) to every SOA serial of the current case: moves a serial chain across 2^31 or 2^32
+    offset: std::cell::Cell<u32>,
     rrkey: HashMap<(String, String), u32>,
     apex: StoredName,
     recs: Vec<(StoredName, Ttl, Data)>,
@@ -96,9 +98,25 @@ impl Uni {
             let n = rrkey.len() as u32;
             rrkey.entry((o.to_string().to_ascii_lowercase(), d.rtype().to_string())).or_insert(n);
         }
-        Uni { rrkey, apex, recs, index }
+        Uni { offset: std::cell::Cell::new(0), rrkey, apex, recs, index }
     }
     fn n(&self) -> u32 { self.recs.len() as u32 }
+    /// Chooses where the serials of this case live.  `lo`/`hi` are the smallest and largest SOA ids
+    /// used.  kind 0: as they are; 1: the chain crosses 2^32 (… 0xFFFFFFFE, 0xFFFFFFFF, 2, 7 …);
+    /// 2: it crosses 2^31; 3: it starts at 0xFFFFFFFE exactly.  Serial arithmetic is invariant
+    /// under the shift (C17), so the abstract ids and the model do not change.
+    fn place_serials(&self, kind: u64, lo: u32, hi: u32) -> bool {
+        let (lo, hi) = (lo >> 1, hi >> 1);
+        let mid = lo + (hi - lo + 1) / 2;
+        let off = match kind {
+            1 => if lo == hi { 0xFFFF_FFFFu32.wrapping_sub(lo) } else { 0u32.wrapping_sub(mid) },
+            2 => if lo == hi { 0x7FFF_FFFFu32.wrapping_sub(lo) } else { 0x8000_0000u32.wrapping_sub(mid) },
+            3 => 0xFFFF_FFFEu32.wrapping_sub(lo),
+            _ => 0,
+        };
+        self.offset.set(off);
+        off != 0
+    }
     /// `K.D.T` word of a record for the diff model: RRset key, data id, TTL
     fn kdt(&self, a: AR, ttl: u32) -> Option<String> {
         match a {
@@ -129,7 +147,7 @@ impl Uni {
         format!("R[{}]A[{}]", side(&d.removed), side(&d.added))
     }
     fn soa(&self, id: u32) -> Data {
-        ZoneRecordData::Soa(Soa::new(nm("ns1.example.test."), nm("admin.example.test."), Serial(id >> 1),
+        ZoneRecordData::Soa(Soa::new(nm("ns1.example.test."), nm("admin.example.test."), Serial((id >> 1).wrapping_add(self.offset.get())),
             Ttl::from_secs(3600), Ttl::from_secs(600), Ttl::from_secs(86400), Ttl::from_secs(300 + (id & 1))))
     }
     fn concrete(&self, a: AR) -> (StoredName, Ttl, Data) {
@@ -145,6 +163,7 @@ impl Uni {
     }
     fn abs_of(&self, owner: &str, rtype: Rtype, data_str: &str, soa: Option<(u32, u32)>) -> AR {
         if let Some((serial, min)) = soa {
+            let serial = serial.wrapping_sub(self.offset.get());
             if min >= 300 && min <= 301 && serial < (1 << 30) { return AR::Soa((serial << 1) | (min - 300)); }
             return AR::Soa(999_999);
         }
@@ -506,6 +525,7 @@ fn ixfr_records_pairs(new: &Version, pairs: &[(Version, Version)]) -> Vec<AR> {
 /// framing is "mismatched": such a stream must not be accepted.
 fn unchained_case(cx: &mut Ctx, r: &mut Rng, chain: &[Version], which: &str, cuts_seed: u64, comp: u8) {
     let uni = cx.uni;
+    { let ids: Vec<u32> = chain.iter().map(|v| v.soa).collect(); let k = r.below(4); cx.place(k, &ids); }
     let new = chain.last().unwrap().clone();
     let (z0, pairs): (Version, Vec<(Version, Version)>) = match which {
         "base" => {
@@ -575,9 +595,19 @@ fn package(r: &mut Rng, qtype: u16, chunks: Vec<Vec<AR>>) -> Vec<AMsg> {
     chunks.into_iter().enumerate().map(|(i, c)| AMsg::good(i == 0, r.chance(1, 2), qtype, c)).collect()
 }
 
-struct Ctx<'a> { sender_msgs: u64, sender_multi: u64, fails: BTreeMap<String, u64>, uni: &'a Uni, rt: &'a tokio::runtime::Runtime, out: &'a mut Out, ttl_kind: bool, lone_soa: u64, undetected: BTreeMap<String, u64>, diffs: u64 }
+struct Ctx<'a> { force_place: Option<u64>, wrapped: bool, wrap_cases: u64, sender_msgs: u64, sender_multi: u64, fails: BTreeMap<String, u64>, uni: &'a Uni, rt: &'a tokio::runtime::Runtime, out: &'a mut Out, ttl_kind: bool, lone_soa: u64, undetected: BTreeMap<String, u64>, diffs: u64 }
 
 impl<'a> Ctx<'a> {
+    fn place(&mut self, kind: u64, ids: &[u32]) {
+        let kind = self.force_place.unwrap_or(kind);
+        let lo = *ids.iter().min().unwrap(); let hi = *ids.iter().max().unwrap();
+        self.wrapped = self.uni.place_serials(kind, lo, hi);
+        if self.wrapped { self.wrap_cases += 1; }
+    }
+    /// class of a valid transfer that fails: across a serial wrap it has its own name
+    fn valid_cls(&self, mode: u8) -> &'static str {
+        if self.wrapped { "serial_wrap_transfer_rejected" } else if mode == 0 { "axfr_content_mismatch" } else { "ixfr_content_mismatch" }
+    }
     /// like Out::check, but writes at most 12 failures per class (the rest is counted in stats)
     fn chk(&mut self, ok: bool, class: &str, case: &str, detail: &str) {
         if ok { self.out.check(true, class, case, detail); return; }
@@ -641,6 +671,12 @@ fn valid_case(cx: &mut Ctx, r: &mut Rng, mode: u8, chain: &[Version], z0: &Versi
     // mode 0 = AXFR, 1 = IXFR, 2 = AXFR-style fallback under an IXFR question
     let uni = cx.uni;
     let new = chain.last().unwrap().clone();
+    {
+        let mut ids: Vec<u32> = chain.iter().map(|v| v.soa).collect();
+        if z0_has_soa { ids.push(z0.soa); }
+        let kind = r.below(5);   // 0,4: plain; 1: across 2^32; 2: across 2^31; 3: from 0xFFFFFFFE
+        cx.place(kind, &ids);
+    }
     let recs = match mode { 1 => ixfr_records(chain), _ => axfr_records(&new, r) };
     let chunks = chunks_of(&recs, cuts);
     let qtype = if mode == 0 { 252 } else { 251 };
@@ -668,7 +704,7 @@ fn valid_case(cx: &mut Ctx, r: &mut Rng, mode: u8, chain: &[Version], z0: &Versi
         return;
     }
     let want = spec_content(uni, Some(new.soa), &new.keys);
-    let cls = if mode == 0 { "axfr_content_mismatch" } else { "ixfr_content_mismatch" };
+    let cls = cx.valid_cls(mode);
     cx.chk(st == St::Done && ap.result == "Ok" && ap.fin, cls, &case, &format!("valid stream not completed: {:?} / {}", st, ap.result));
     cx.chk(ap.final_content == want, cls, &case, &format!("receiver {:?} sender {:?}", ap.final_content, want));
     // every visible state is a version of the chain (or the start zone)
@@ -684,6 +720,7 @@ fn valid_case(cx: &mut Ctx, r: &mut Rng, mode: u8, chain: &[Version], z0: &Versi
 /// the chain after the abort and exactly the target after the second transfer.
 fn abort_case(cx: &mut Ctx, r: &mut Rng, chain: &[Version], other: Option<&Version>, comp: u8) {
     let uni = cx.uni;
+    { let mut ids: Vec<u32> = chain.iter().map(|v| v.soa).collect(); if let Some(o) = other { ids.push(o.soa); } let k = r.below(4); cx.place(k, &ids); }
     let recs = ixfr_records(chain);
     let msgs1 = package(r, 251, vec![recs]);
     let wire1: Vec<Vec<u8>> = msgs1.iter().map(|m| build_msg(uni, m, comp)).collect();
@@ -768,8 +805,9 @@ fn words_of_wire(uni: &Uni, w: &[u8]) -> Option<String> {
 /// The sender is a real zone taken through `chain` with ZoneUpdater (so the diffs are the ones
 /// the zone reports), served by XfrMiddlewareSvc; the receiver applies the response stream.
 /// mode 0 = AXFR, 1 = IXFR with diffs, 2 = IXFR without diffs (AXFR-style fallback).
-fn sender_case(cx: &mut Ctx, chain: &[Version], mode: u8, compat: bool, recv_start: &Version) {
+fn sender_case(cx: &mut Ctx, chain: &[Version], mode: u8, compat: bool, recv_start: &Version, place: u64) {
     let uni = cx.uni;
+    { let mut ids: Vec<u32> = chain.iter().map(|v| v.soa).collect(); ids.push(recv_start.soa); cx.place(place, &ids); }
     let new = chain.last().unwrap().clone();
     let label = format!("sender:{}{}", ["axfr", "ixfr", "fallback"][mode as usize], if compat { ":compat" } else { "" });
     let case0 = format!("{} chain={:?} new={}", label, chain.iter().map(|v| v.soa).collect::<Vec<_>>(), new.soa);
@@ -834,7 +872,7 @@ fn sender_case(cx: &mut Ctx, chain: &[Version], mode: u8, compat: bool, recv_sta
     cx.chk(run.st != St::Panic, "panic_xfr", &case, &label);
     let rzone = build_zone(uni, Some(recv_start.soa), &recv_start.keys);
     let ap = apply_updates(uni, cx.rt, &rzone, &run.upds);
-    let cls = if mode == 0 { "axfr_content_mismatch" } else { "ixfr_content_mismatch" };
+    let cls = cx.valid_cls(mode);
     let short = format!("{} msgs={} {}", case0, wire.len(), if case.len() > 600 { &case[..600] } else { &case });
     cx.chk(run.st == St::Done && ap.result == "Ok" && ap.fin, cls, &short, &format!("sender-built stream not completed: {:?} / {}", run.st, ap.result));
     cx.chk(ap.final_content == sender_content, cls, &short, &format!("receiver {:?} sender {:?}", ap.final_content, sender_content));
@@ -844,6 +882,76 @@ fn sender_case(cx: &mut Ctx, chain: &[Version], mode: u8, compat: bool, recv_sta
         let first_an = Message::from_octets(Bytes::from(wire[0].clone())).map(|m| m.header_counts().ancount()).unwrap_or(0);
         cx.chk(first_an != 1, "sender_lone_soa_first_message", &short, "the sender put the SOA alone into the first message of a reply to an IXFR question");
     }
+}
+
+/// The zone is committed to a new version between the acceptance of an AXFR(-style) request and
+/// the start of the zone walk (the only walk permit is held meanwhile).  What the receiver gets
+/// must be one sender version in full: SOA framing and records from the same snapshot.
+fn sender_race_case(cx: &mut Ctx, old: &Version, new: &Version, mode: u8, recv_start: &Version, place: u64) {
+    let uni = cx.uni;
+    cx.place(place, &[old.soa, new.soa, recv_start.soa, old.soa.saturating_sub(2)]);
+    let label = format!("sender_race:{}", if mode == 0 { "axfr" } else { "fallback" });
+    let case0 = format!("{} old={} new={} place={}", label, old.soa, new.soa, place);
+    cx.out.begin(&case0);
+    cx.out.oracle_case(&case0, true, "sender_race");
+    let szone = build_zone(uni, Some(old.soa), &old.keys);
+    let rt = cx.rt;
+    let built = catch_mut(|| rt.block_on(async {
+        let walk_sem = Arc::new(tokio::sync::Semaphore::new(1));
+        let permit = walk_sem.clone().acquire_owned().await.map_err(|e| e.to_string())?;
+        let mb = MessageBuilder::new_vec();
+        let mut q = mb.question();
+        q.push((uni.apex.clone(), if mode == 0 { Rtype::AXFR } else { Rtype::IXFR })).unwrap();
+        let req_msg = if mode == 0 { q.into_message() } else {
+            let mut au = q.authority();
+            let (o, t, d) = uni.concrete(AR::Soa(old.soa.saturating_sub(2)));
+            au.push((o, Class::IN, t, d)).unwrap();
+            au.into_message()
+        };
+        let req = Request::new("127.0.0.1:12345".parse().unwrap(), tokio::time::Instant::now(), req_msg,
+            TransportSpecificContext::NonUdp(NonUdpTransportContext::new(None)), ());
+        let provider = Provider { zone: szone.clone(), diffs: vec![], compat: false };
+        let res = XfrMiddlewareSvc::<Vec<u8>, NextSvc, (), Provider>::preprocess(walk_sem.clone(), Arc::new(tokio::sync::Semaphore::new(1)), &req, provider).await;
+        let mut stream = match res { Ok(ControlFlow::Break(s)) => s, Ok(ControlFlow::Continue(())) => return Err("not handled".to_string()), Err(rc) => return Err(format!("rcode {}", rc)) };
+        // let the spawned tasks run up to the permit
+        for _ in 0..5 { tokio::task::yield_now().await; }
+        // the zone moves on while the transfer waits
+        {
+            let mut up: ZoneUpdater<StoredName> = ZoneUpdater::new(szone.clone()).await.map_err(|e| e.to_string())?;
+            up.apply(ZoneUpdate::BeginBatchDelete(stored(uni, AR::Soa(old.soa)))).await.map_err(|e| e.to_string())?;
+            for k in old.keys.difference(&new.keys) { up.apply(ZoneUpdate::DeleteRecord(stored(uni, AR::Other(*k)))).await.map_err(|e| e.to_string())?; }
+            up.apply(ZoneUpdate::BeginBatchAdd(stored(uni, AR::Soa(new.soa)))).await.map_err(|e| e.to_string())?;
+            for k in new.keys.difference(&old.keys) { up.apply(ZoneUpdate::AddRecord(stored(uni, AR::Other(*k)))).await.map_err(|e| e.to_string())?; }
+            up.apply(ZoneUpdate::Finished(stored(uni, AR::Soa(new.soa)))).await.map_err(|e| e.to_string())?;
+        }
+        for _ in 0..5 { tokio::task::yield_now().await; }
+        drop(permit);
+        let mut wire: Vec<Vec<u8>> = vec![];
+        loop {
+            match tokio::time::timeout(std::time::Duration::from_secs(10), stream.next()).await {
+                Err(_) => return Err("sender stream timed out".to_string()),
+                Ok(None) => break,
+                Ok(Some(Err(e))) => return Err(format!("service error {:?}", e)),
+                Ok(Some(Ok(cr))) => { if let Some(b) = cr.into_inner().0 { wire.push(b.as_message().as_slice().to_vec()); } }
+            }
+        }
+        Ok(wire)
+    }));
+    let wire = match built {
+        Ok(Ok(w)) => w,
+        Ok(Err(e)) => { cx.chk(false, "sender_failed", &case0, &e); return; }
+        Err(e) => { cx.chk(false, "panic_xfr", &case0, &format!("sender side panicked: {}", e)); return; }
+    };
+    let (sender_now, _) = walk_zone(uni, &szone);
+    cx.chk(sender_now == spec_content(uni, Some(new.soa), &new.keys), "sender_failed", &case0, "the sender zone did not move to the new version");
+    let run = run_interp(uni, &wire);
+    let rzone = build_zone(uni, Some(recv_start.soa), &recv_start.keys);
+    let ap = apply_updates(uni, cx.rt, &rzone, &run.upds);
+    cx.chk(run.st != St::Panic && ap.result != "Panic", "panic_xfr", &case0, "");
+    let (vo, vn) = (spec_content(uni, Some(old.soa), &old.keys), spec_content(uni, Some(new.soa), &new.keys));
+    let upd_txt = run.upds.iter().map(|u| u.1.clone()).collect::<Vec<_>>().join(",");
+    cx.chk(run.st == St::Done && ap.fin && (ap.final_content == vo || ap.final_content == vn), "axfr_mixed_versions", &case0,
+        &format!("status {:?}; updates {}; receiver has {:?}; sender versions {:?} / {:?}", run.st, upd_txt, ap.final_content, vo, vn));
 }
 
 // ---------------------------------------------------------------- TSIG signed transfers
@@ -866,6 +974,7 @@ fn build_additional(uni: &Uni, m: &AMsg) -> AdditionalBuilder<BytesMut> {
 /// (TSIG chains every MAC to the previous one), before Finished reaches the updater.
 fn tsig_case(cx: &mut Ctx, r: &mut Rng, mode: u8, chain: &[Version], z0: &Version, cuts: &[usize], fault: &str) {
     let uni = cx.uni;
+    { let mut ids: Vec<u32> = chain.iter().map(|v| v.soa).collect(); ids.push(z0.soa); let k = r.below(4); cx.place(k, &ids); }
     let new = chain.last().unwrap().clone();
     let recs = match mode { 1 => ixfr_records(chain), _ => axfr_records(&new, r) };
     let mut chunks = chunks_of(&recs, cuts);
@@ -928,6 +1037,7 @@ const HDR_FAULTS: [&str; 12] = ["rcode", "tc", "qr0", "opcode", "ancount0", "nsc
 
 fn fault_case(cx: &mut Ctx, r: &mut Rng, mode: u8, chain: &[Version], cuts: &[usize], comp: u8, fault: &str) {
     let uni = cx.uni;
+    { let ids: Vec<u32> = chain.iter().map(|v| v.soa).collect(); let k = r.below(4); cx.place(k, &ids); }
     let new = chain.last().unwrap().clone();
     let z0 = chain[0].clone();
     let recs = match mode { 1 => ixfr_records(chain), _ => axfr_records(&new, r) };
@@ -1051,7 +1161,7 @@ fn main() {
     let mut r = Rng::new(a.seed);
     let uni = Uni::new();
     let rt = tokio::runtime::Builder::new_current_thread().enable_all().build().unwrap();
-    let mut cx = Ctx { sender_msgs: 0, sender_multi: 0, fails: BTreeMap::new(), uni: &uni, rt: &rt, out: &mut out, ttl_kind: false, lone_soa: 0, undetected: BTreeMap::new(), diffs: 0 };
+    let mut cx = Ctx { force_place: None, wrapped: false, wrap_cases: 0, sender_msgs: 0, sender_multi: 0, fails: BTreeMap::new(), uni: &uni, rt: &rt, out: &mut out, ttl_kind: false, lone_soa: 0, undetected: BTreeMap::new(), diffs: 0 };
     let ks = |v: &[u32]| -> BTreeSet<u32> { v.iter().cloned().collect() };
 
     // ---- corpus ----
@@ -1069,6 +1179,29 @@ fn main() {
         valid_case(&mut cx, &mut r, 2, &[v11.clone()], &v10, true, &[1], comp);
         valid_case(&mut cx, &mut r, 1, &[v10.clone(), v11.clone()], &v10, true, &[1, 4], comp);
     }
+    // serial chains across the wrap: 0xFFFFFFFE -> 0xFFFFFFFF -> 2 -> 7 (place 3), across 2^32 and 2^31 in the middle
+    {
+        let c0 = Version { soa: 200, keys: ks(&[0, 1, 5, 9]) };
+        let c1 = Version { soa: 202, keys: ks(&[0, 1, 5, 11]) };
+        let c2 = Version { soa: 208, keys: ks(&[0, 1, 12, 15]) };
+        let c3 = Version { soa: 218, keys: ks(&[0, 1, 12, 13]) };
+        for place in [3u64, 1, 2] {
+            cx.force_place = Some(place);
+            for comp in 0..3u8 {
+                valid_case(&mut cx, &mut r, 1, &[c0.clone(), c1.clone(), c2.clone(), c3.clone()], &c0, true, &[3, 7], comp);
+                valid_case(&mut cx, &mut r, 1, &[c0.clone(), c1.clone()], &c0, true, &[], comp);
+                valid_case(&mut cx, &mut r, 0, &[c3.clone()], &c0, true, &[2], comp);      // AXFR refresh across the wrap
+                valid_case(&mut cx, &mut r, 2, &[c3.clone()], &c1, true, &[2], comp);
+            }
+            abort_case(&mut cx, &mut r, &[c0.clone(), c1.clone(), c2.clone(), c3.clone()], None, 1);
+            unchained_case(&mut cx, &mut r, &[c0.clone(), c1.clone(), c2.clone(), c3.clone()], "middle", 0, 1);
+            unchained_case(&mut cx, &mut r, &[c0.clone(), c1.clone(), c2.clone()], "base", 0, 1);
+            sender_case(&mut cx, &[c0.clone(), c1.clone(), c2.clone(), c3.clone()], 1, false, &c0, place);
+            sender_case(&mut cx, &[c3.clone()], 0, false, &c0, place);
+            sender_case(&mut cx, &[c0.clone(), c3.clone()], 2, false, &c0, place);
+        }
+        cx.force_place = None;
+    }
     // IXFR delete sections that empty RRsets of two and three records one record at a time
     {
         let wa = Version { soa: 60, keys: ks(&[0, 1, 5, 6, 7, 9]) };
@@ -1082,6 +1215,7 @@ fn main() {
     }
     // single SOA IXFR answer ("up to date" / retry over TCP)
     {
+        cx.place(0, &[0]);
         let msgs = vec![AMsg::good(true, true, 251, vec![AR::Soa(20)])];
         let (st, ap, _) = run_stream(&mut cx, "ixfr_single_soa", &msgs, 1, &v10, true, "corpus");
         cx.chk(st == St::Err(14) && ap.final_content == spec_content(&uni, Some(20), &v10.keys), "ixfr_single_soa", "x single soa", &format!("{:?}", st));
@@ -1162,19 +1296,32 @@ fn main() {
         let vb = Version { soa: 82, keys: ks(&[0, 1, 3, 5, 7, 9, 11]) };
         let vc = Version { soa: 86, keys: ks(&[0, 1, 5, 7, 11, 12, 15]) };
         let other = Version { soa: 30, keys: ks(&[0, 2, 9, 14]) };
-        sender_case(&mut cx, &[va.clone()], 0, false, &other);
-        sender_case(&mut cx, &[va.clone()], 0, true, &other);          // one record per message
-        sender_case(&mut cx, &[va.clone(), vb.clone()], 1, false, &va);
-        sender_case(&mut cx, &[va.clone(), vb.clone(), vc.clone()], 1, false, &va);
-        sender_case(&mut cx, &[va.clone(), vb.clone()], 2, false, &va);
-        sender_case(&mut cx, &[va.clone(), vb.clone()], 2, true, &va);  // compat mode must not apply to IXFR questions
+        sender_case(&mut cx, &[va.clone()], 0, false, &other, 0);
+        sender_case(&mut cx, &[va.clone()], 0, true, &other, 1);          // one record per message
+        sender_case(&mut cx, &[va.clone(), vb.clone()], 1, false, &va, 2);
+        sender_case(&mut cx, &[va.clone(), vb.clone(), vc.clone()], 1, false, &va, 3);
+        sender_case(&mut cx, &[va.clone(), vb.clone()], 2, false, &va, 0);
+        sender_case(&mut cx, &[va.clone(), vb.clone()], 2, true, &va, 1);  // compat mode must not apply to IXFR questions
         // big zones: several messages (64 KiB each)
         let bulk = |from: u32, n: u32| -> BTreeSet<u32> { (0..n).map(|i| 1000 + from + i).chain([0u32, 1, 5]).collect() };
         let ba = Version { soa: 90, keys: bulk(0, 420) };
         let bb = Version { soa: 92, keys: bulk(300, 420) };
-        sender_case(&mut cx, &[ba.clone()], 0, false, &other);
-        sender_case(&mut cx, &[ba.clone(), bb.clone()], 1, false, &ba);   // multi-message IXFR
-        sender_case(&mut cx, &[ba.clone(), bb.clone()], 2, false, &ba);   // multi-message fallback
+        sender_case(&mut cx, &[ba.clone()], 0, false, &other, 2);
+        sender_case(&mut cx, &[ba.clone(), bb.clone()], 1, false, &ba, 3);   // multi-message IXFR
+        sender_case(&mut cx, &[ba.clone(), bb.clone()], 2, false, &ba, 0);   // multi-message fallback
+        // the zone changes between the request and the walk
+        sender_race_case(&mut cx, &va, &vc, 0, &other, 0);
+        sender_race_case(&mut cx, &va, &vc, 2, &va, 1);
+        sender_race_case(&mut cx, &ba, &bb, 0, &other, 3);
+        let n_r = (if a.thorough { 100 } else { 8 }) * a.scale;
+        for i in 0..n_r {
+            let mut fr = r.fork();
+            let o = Version { soa: 2 * (2 + fr.below(1000) as u32), keys: rand_keys(&mut fr, &uni, 10) };
+            let nw = mutate(&mut fr, &uni, &o);
+            let start = Version { soa: 2 * fr.below(500) as u32, keys: rand_keys(&mut fr, &uni, 6) };
+            let pl = fr.below(4);
+            sender_race_case(&mut cx, &o, &nw, if i % 2 == 0 { 0 } else { 2 }, &start, pl);
+        }
         let n_s = (if a.thorough { 300 } else { 25 }) * a.scale;
         for i in 0..n_s {
             let mut fr = r.fork();
@@ -1184,8 +1331,8 @@ fn main() {
             let mode = (i % 3) as u8;
             let compat = fr.chance(1, 3);
             let start = if mode == 0 { Version { soa: 2 * fr.below(500) as u32, keys: rand_keys(&mut fr, &uni, 8) } } else { base };
-            if mode == 0 { let last = chain.last().unwrap().clone(); sender_case(&mut cx, &[last], 0, compat, &start); }
-            else { sender_case(&mut cx, &chain, mode, compat, &start); }
+            if mode == 0 { let last = chain.last().unwrap().clone(); sender_case(&mut cx, &[last], 0, compat, &start, fr.below(4)); }
+            else { sender_case(&mut cx, &chain, mode, compat, &start, fr.below(4)); }
         }
     }
 
@@ -1286,6 +1433,7 @@ fn main() {
         }
     }
 
+    cx.place(0, &[0]);
     // ---- random garbage record streams (totality, T2) ----
     let n_junk = (if a.thorough { 4000 } else { 400 }) * a.scale;
     for _ in 0..n_junk {
@@ -1305,5 +1453,6 @@ fn main() {
     let und = format!("{{{}}}", cx.undetected.iter().map(|(k, v)| format!("{}: {}", json_str(k), v)).collect::<Vec<_>>().join(","));
     let fc = format!("{{{}}}", cx.fails.iter().map(|(k, v)| format!("{}: {}", json_str(k), v)).collect::<Vec<_>>().join(","));
     let (smsgs, smulti) = (cx.sender_msgs, cx.sender_multi);
-    out.finish(&[("sender_messages", smsgs.to_string()), ("sender_multi_message_streams", smulti.to_string()), ("failures_by_class", fc), ("lone_soa_first_msg", lone.to_string()), ("undetected_by_design", und), ("diffs_checked", diffs.to_string())]);
+    let wraps = cx.wrap_cases;
+    out.finish(&[("serial_wrap_cases", wraps.to_string()), ("sender_messages", smsgs.to_string()), ("sender_multi_message_streams", smulti.to_string()), ("failures_by_class", fc), ("lone_soa_first_msg", lone.to_string()), ("undetected_by_design", und), ("diffs_checked", diffs.to_string())]);
 }
